@@ -12,9 +12,11 @@ Line-protocol front end of the C06 model.
   operations; the driver runs it on a fixed input with a fixed interpretation).
 * `C06 internal NAME` → `ok safe=B memo=a,b|- scratch=c|-` : verdict of `safeInternal` on the named
   program with element-internal cells and the attribute names of its memo cells / scratch buffers.
-* `C06 denote TERM @ [re,im,re,im,…]` → `ok par=lin|conj|mixed [re,im,…]` : exact evaluation of an
-  operator term at Gaussian rationals. `TERM` is prefix notation over tokens:
-  `id | zero N | mul CLIST | mat NROWS CLIST | add T T | sub T T | comp T T | scale RE IM T | conj`.
+* `C06 denote-family FAMILY ARG… @ X1 @ X2 …` → `ok par=lin|conj|mixed expect=lin|conj Y1 Y2 …` : the term of the
+  family is built **by `Elements.familyTerm`** (the Lean schema the theorems `family_parity` /
+  `family_semilinear` speak about) from the arguments, and evaluated exactly at Gaussian dyadic rationals (`OpIR.CDy`: every float is one) on every
+  input vector. `ARG` is `v CLIST` (a vector), `m NROWS CLIST` (a matrix, row major) or `-` (an absent optional
+  part); `CLIST = [re,im,re,im,…]`. `expect` is `Family.conj` of the family.
 -/
 namespace HcipyVerif.Driver.C06
 open HcipyVerif.Proto HcipyVerif.OpIR HcipyVerif.Effects
@@ -22,67 +24,62 @@ open HcipyVerif.Proto HcipyVerif.OpIR HcipyVerif.Effects
 structure St where
   dummy : Unit := ()
 
-def pairUp : List Rat → Option (List CRat)
+/-- `n` or `n/d` with `d` a power of two (what a float is): no gcd, no normalisation. -/
+def parseDy? (s : String) : Option Dy :=
+  match s.splitOn "/" with
+  | [n] => (n.toInt?).map fun i => ⟨i, 0⟩
+  | [n, d] =>
+    match n.toInt?, d.toNat? with
+    | some i, some k =>
+      let e := Nat.log2 k
+      if k ≠ 0 && 2 ^ e = k then some ⟨i, e⟩ else none
+    | _, _ => none
+  | _ => none
+
+def pairUp : List Dy → Option (List CDy)
   | [] => some []
   | re :: im :: rest => (pairUp rest).map (⟨re, im⟩ :: ·)
   | [_] => none
 
-def parseCList? (s : String) : Option (List CRat) := (parseRatList? s).bind pairUp
+def parseCList? (s : String) : Option (List CDy) := (parseListWith? parseDy? s).bind pairUp
 
 def chunks {α} (k : Nat) (fuel : Nat) (l : List α) : List (List α) :=
   match fuel with
   | 0 => []
   | fuel + 1 => if l.isEmpty || k = 0 then [] else l.take k :: chunks k fuel (l.drop k)
 
-/-- Prefix parser; returns the term and the unread tokens. -/
-def parseTerm : Nat → List String → Option (Term CRat × List String)
-  | 0, _ => none
-  | _ + 1, [] => none
-  | fuel + 1, tok :: rest =>
-    match tok with
-    | "id" => some (.id, rest)
-    | "conj" => some (.conj, rest)
-    | "zero" =>
-      match rest with
-      | n :: rest => (parseNat? n).map fun n => (.zero n, rest)
-      | [] => none
-    | "mul" =>
-      match rest with
-      | l :: rest => (parseCList? l).map fun m => (.mulField m, rest)
-      | [] => none
-    | "mat" =>
-      match rest with
-      | n :: l :: rest =>
-        match parseNat? n, parseCList? l with
-        | some n, some flat =>
-          if n = 0 then (if flat.isEmpty then some (.matrix [], rest) else none)
-          else if flat.length % n ≠ 0 then none
-          else some (.matrix (chunks (flat.length / n) n flat), rest)
-        | _, _ => none
-      | _ => none
-    | "scale" =>
-      match rest with
-      | re :: im :: rest =>
-        match parseRat? re, parseRat? im, parseTerm fuel rest with
-        | some re, some im, some (t, rest) => some (.scale ⟨re, im⟩ t, rest)
-        | _, _, _ => none
-      | _ => none
-    | "add" =>
-      match parseTerm fuel rest with
-      | some (s, rest) => (parseTerm fuel rest).map fun (t, rest) => (.add s t, rest)
-      | none => none
-    | "sub" =>
-      match parseTerm fuel rest with
-      | some (s, rest) => (parseTerm fuel rest).map fun (t, rest) => (.sub s t, rest)
-      | none => none
-    | "comp" =>
-      match parseTerm fuel rest with
-      | some (s, rest) => (parseTerm fuel rest).map fun (t, rest) => (.comp s t, rest)
-      | none => none
-    | _ => none
+def parseMat? (n l : String) : Option (List (List CDy)) :=
+  match parseNat? n, parseCList? l with
+  | some n, some flat =>
+    if n = 0 then (if flat.isEmpty then some [] else none)
+    else if flat.length % n ≠ 0 then none
+    else some (chunks (flat.length / n) n flat)
+  | _, _ => none
 
-def showCList (l : List CRat) : String :=
-  "[" ++ ",".intercalate (l.map fun z => showRat z.re ++ "," ++ showRat z.im) ++ "]"
+/-- `v CLIST | m NROWS CLIST | -` …, up to the end of the token list. -/
+def parseArgs : Nat → List String → Option (List (HcipyVerif.Elements.Arg CDy))
+  | _, [] => some []
+  | 0, _ => none
+  | fuel + 1, "-" :: rest => (parseArgs fuel rest).map (.none :: ·)
+  | fuel + 1, "v" :: l :: rest =>
+    match parseCList? l, parseArgs fuel rest with
+    | some v, some as => some (.vec v :: as)
+    | _, _ => none
+  | fuel + 1, "m" :: n :: l :: rest =>
+    match parseMat? n l, parseArgs fuel rest with
+    | some A, some as => some (.mat A :: as)
+    | _, _ => none
+  | _, _ => none
+
+/-- split `a b @ c @ d` into `[a,b]` and `[[c],[d]]` -/
+def splitAt (toks : List String) : List (List String) :=
+  toks.foldr (fun t acc => if t == "@" then [] :: acc else
+    match acc with
+    | g :: gs => (t :: g) :: gs
+    | [] => [[t]]) [[]]
+
+def showCList (l : List CDy) : String :=
+  "[" ++ ",".intercalate (l.map fun z => showRat z.re.toRat ++ "," ++ showRat z.im.toRat) ++ "]"
 
 def showParity : Option Bool → String
   | some false => "lin" | some true => "conj" | none => "mixed"
@@ -108,13 +105,21 @@ def step (st : St) : List String → St × String
       let sh := fun (l : List String) => if l.isEmpty then "-" else ",".intercalate l
       (st, s!"ok safe={showBool (safeInternal p)} memo={sh memo} scratch={sh scratch}")
     | none => (st, "bad-op")
-  | "denote" :: rest =>
-    match parseTerm (rest.length + 1) rest with
-    | some (t, ["@", v]) =>
-      match parseCList? v with
-      | some x => (st, s!"ok par={showParity (parity t)} {showCList (denote CRat.conj t x)}")
-      | none => (st, "bad-op")
-    | _ => (st, "bad-op")
+  | "denote-family" :: fam :: rest =>
+    match HcipyVerif.Elements.Family.ofString? fam, splitAt rest with
+    | some f, argToks :: inputs =>
+      match parseArgs (argToks.length + 1) argToks, inputs.mapM (fun g => match g with
+          | [v] => parseCList? v
+          | _ => none) with
+      | some args, some xs =>
+        if xs.isEmpty then (st, "bad-op") else
+        match HcipyVerif.Elements.familyTerm f args with
+        | some t =>
+          let outs := xs.map fun x => showCList (denote CDy.conj t x)
+          (st, s!"ok par={showParity (parity t)} expect={showParity (some f.conj)} {" ".intercalate outs}")
+        | none => (st, "bad-args")
+      | _, _ => (st, "bad-op")
+    | _, _ => (st, "bad-op")
   | _ => (st, "bad-op")
 
 end HcipyVerif.Driver.C06
